@@ -56,6 +56,9 @@ def configs(ss, Recount):
                                                      demographics=[ss.Births(birth_rate=400, dt=0.25), ss.Deaths(death_rate=50)], dur=5, rand_seed=seed, verbose=0, **kw)
     cf['pregnancy-hiv'] = lambda seed, **kw: ss.Sim(n_agents=200, diseases=ss.HIV(beta={'mf': [0.1, 0.05], 'prenatal': [0.3, 0]}), networks=[ss.MFNet(), ss.PrenatalNet()],
                                                    analyzers=Recount(name='recount'), demographics=[ss.Pregnancy(fertility_rate=60), ss.Deaths(death_rate=15)], dur=6, rand_seed=seed, verbose=0, **kw)
+    cf['ncd-deaths'] = lambda seed, **kw: ss.Sim(n_agents=150, diseases=ss.NCD(), analyzers=Recount(name='recount'), demographics=[ss.Deaths(death_rate=20)], dur=8, rand_seed=seed, verbose=0, **kw)
+    cf['pregnancy-burnin-fine-dt'] = lambda seed, **kw: ss.Sim(n_agents=300, networks=[ss.PrenatalNet()], analyzers=Recount(name='recount'), dt=0.25,
+                                                   demographics=[ss.Pregnancy(fertility_rate=250), ss.Deaths(death_rate=15)], dur=4, rand_seed=seed, verbose=0, **kw)
     return cf
 
 
@@ -120,6 +123,13 @@ def run(ctx):
                 if not np.array_equal(created, R['births.new'][1]):
                     t = int(np.flatnonzero(created != R['births.new'][1])[0])
                     ctx.violation(f'{name}: births.new[{t}] = {R["births.new"][1][t]} but {created[t]} agents were created in that step', key | dict(ti=t))
+            # pregnancies flow = agents conceived (burn-in conceptions happen inside step 0 and are real agents too)
+            if 'pregnancy.pregnancies' in R and len(R['pregnancy.pregnancies'][1]) == len(probe.n_uid):
+                created = np.diff([int(base.pars.n_agents)] + probe.n_uid)
+                ctx.count(('pregnancy-flow', name, seed), nontrivial=True); ctx.dist('pregnancies flow vs agents conceived')
+                if not np.array_equal(created, R['pregnancy.pregnancies'][1]):
+                    t = int(np.flatnonzero(created != R['pregnancy.pregnancies'][1])[0])
+                    ctx.violation(f'{name}: pregnancy.pregnancies[{t}] = {R["pregnancy.pregnancies"][1][t]} but {created[t]} agents were conceived (created) in that step', key | dict(ti=t))
             # scaled twins
             for form, val in (('pop_scale', rng.choice([2.0, 0.5, 7.25])), ('total_pop', rng.choice([1000, 12345]))):
                 try:
@@ -133,6 +143,9 @@ def run(ctx):
                 T = flat_results(tw)
                 for k, (sc_, arr) in R.items():
                     if k not in T: continue
+                    intensive = any(w_ in k.split('.')[-1] for w_ in ('prevalence', 'rel_sus', 'cbr', 'cmr', 'rate', 'frac', 'mean'))     # rates, ratios, means: never scaled
+                    if intensive and sc_:
+                        ctx.violation(f'{name}: result {k} is a rate / ratio but is declared scalable: with {form}={val} it reads {T[k][1][-1]} instead of {arr[-1]}', key | {form: val, 'result': k}); continue
                     want = arr * s if sc_ else arr
                     if not np.allclose(T[k][1], want, rtol=1e-12, atol=0, equal_nan=True):
                         t = int(np.flatnonzero(~np.isclose(T[k][1], want, rtol=1e-12, atol=0, equal_nan=True))[0])
